@@ -48,6 +48,9 @@ class IR(AuxDataContainer):
             self._node = node
             super().__init__(*args)
 
+        def _holds(self, v: Module) -> bool:
+            return v._ir is self._node
+
         def _remove(self, v: Module) -> None:
             v._ir = None
             v._remove_from_uuid_cache(self._node._local_uuid_cache)
